@@ -138,9 +138,10 @@ int main(int argc, char **argv) {
   // cli <binary> <input file> <stdout file> [seed]: hextb's OWN main() in a child process; prints its exit status
   if (argc >= 5 && !strcmp(argv[1], "cli")) {
     fflush(stdout);
+    int fi = open(argv[3], O_RDONLY);   // opened here so that the position the child leaves the input at can be read afterwards
     pid_t pid = fork();
     if (pid == 0) {
-      int fi = open(argv[3], O_RDONLY), fo = open(argv[4], O_WRONLY | O_CREAT | O_TRUNC, 0644);
+      int fo = open(argv[4], O_WRONLY | O_CREAT | O_TRUNC, 0644);
       dup2(fi, 0); dup2(fo, 1);
       std::string seedArg = std::string("+verilator+seed+") + (argc > 5 ? argv[5] : "1");
       const char *av[] = {"hextb", argv[2], seedArg.c_str(), "--max-cycles", "3000000"};
@@ -149,7 +150,8 @@ int main(int argc, char **argv) {
       exit(rc);   // what the process would return (exit() keeps the low 8 bits, as the OS does)
     }
     int st = 0; waitpid(pid, &st, 0);
-    printf("{\"exited\": %s, \"status\": %d}\n", WIFEXITED(st) ? "true" : "false", WIFEXITED(st) ? WEXITSTATUS(st) : -WTERMSIG(st));
+    long pos = (long)lseek(fi, 0, SEEK_CUR);
+    printf("{\"exited\": %s, \"status\": %d, \"input_position\": %ld}\n", WIFEXITED(st) ? "true" : "false", WIFEXITED(st) ? WEXITSTATUS(st) : -WTERMSIG(st), pos);
     return 0;
   }
   if (argc < 5 || strcmp(argv[1], "sweep")) { fprintf(stderr, "usage\n"); return 2; }
